@@ -21,6 +21,46 @@ import (
 
 var errInjected = errors.New("migworld: injected commit error")
 
+// errReadInjected is the transient I/O error of the fault class "read error during a start".
+var errReadInjected = errors.New("migworld: injected transient read error")
+
+// How a read fault manifests.
+const (
+	rfCall  = iota // the call itself fails: Get / Has return the error, NewIterator fails to open
+	rfValue        // the iterator opens; its nth Value/UncopiedValue call returns the error (once)
+	rfStop         // the iterator opens; its nth positioning call hits the error: it returns false, the iterator
+	//                stays invalid and Close reports the error (what db/pebble's iterator does: pebble.Iterator
+	//                keeps the I/O error and hands it out through Close; db.Iterator has no Error method)
+	nReadModes
+)
+
+// readFault is ONE transient read error armed by the scheduler on one released read operation.
+type readFault struct {
+	mode int
+	nth  int // rfValue / rfStop: 0-based index of the failing call on the iterator
+	mu   sync.Mutex
+	hit  bool   // the error was actually handed to the code under test
+	how  string // get has iter_open iter_value iter_stop (+ b... for reads through an indexed batch)
+}
+
+func (f *readFault) fire(how string) {
+	f.mu.Lock()
+	f.hit, f.how = true, how
+	f.mu.Unlock()
+}
+
+func (f *readFault) fired() (bool, string) {
+	f.mu.Lock()
+	defer f.mu.Unlock()
+	return f.hit, f.how
+}
+
+// verdict is what the scheduler tells a released operation.
+type verdict struct {
+	ok   bool       // commits: false = fail with errInjected, nothing applied
+	read *readFault // reads: non-nil = this read suffers the armed fault
+}
+
 type opKind uint8
 
 const (
@@ -67,7 +107,7 @@ func (o opInfo) sortKey() string {
 
 type preq struct {
 	info opInfo
-	ch   chan bool // true: proceed, false: fail with errInjected
+	ch   chan verdict
 }
 
 // plan is what the scheduler injects during ONE scheduled execution.
@@ -77,6 +117,7 @@ type plan struct {
 	failCommitAt int                                           // the k-th commit returns errInjected, nothing applied
 	afterCommit  func(k int, info opInfo)                      // called by the root once commit k is applied (crash image)
 	onOp         func(j int, info opInfo, nParked, chosen int) // called by the root for every released op
+	readFault    func(j int, info opInfo) *readFault           // called by the root for every released read (after onOp): non-nil arms a fault on it
 	choose       func(n int) int                               // picks among n parked requests (sorted by content key)
 	maxOps       int
 }
@@ -95,13 +136,13 @@ type sched struct {
 	capped       bool
 }
 
-func (s *sched) gate(info opInfo) bool {
+func (s *sched) gate(info opInfo) verdict {
 	s.mu.Lock()
 	if !s.active {
 		s.mu.Unlock()
-		return true
+		return verdict{ok: true}
 	}
-	r := &preq{info: info, ch: make(chan bool, 1)}
+	r := &preq{info: info, ch: make(chan verdict, 1)}
 	s.parked = append(s.parked, r)
 	s.mu.Unlock()
 	return <-r.ch
@@ -128,7 +169,7 @@ func (s *sched) run(p plan, fn func() error) (err error, broken string) {
 		s.parked = nil
 		s.mu.Unlock()
 		for _, r := range rest { // never expected; do not leave goroutines behind
-			r.ch <- true
+			r.ch <- verdict{ok: true}
 		}
 		synctest.Wait()
 	}
@@ -191,7 +232,11 @@ func (s *sched) run(p plan, fn func() error) (err error, broken string) {
 				pendingImage, pendingInfo = s.commits, r.info
 			}
 		}
-		r.ch <- ok
+		v := verdict{ok: ok}
+		if r.info.kind == opRead && p.readFault != nil {
+			v.read = p.readFault(s.ops, r.info)
+		}
+		r.ch <- v
 	}
 }
 
@@ -226,26 +271,112 @@ func unordered(key []byte) bool {
 	return false
 }
 
-func (d *sdb) read(name string, key []byte) bool {
+// read parks a read; a non-nil result means that this read is the one that fails.
+func (d *sdb) read(name string, key []byte) *readFault {
 	if unordered(key) {
-		return true
+		return nil
 	}
-	return d.s.gate(opInfo{kind: opRead, name: name, bucket: first(key), key: hexs(key)})
+	return d.s.gate(opInfo{kind: opRead, name: name, bucket: first(key), key: hexs(key)}).read
 }
 
 func (d *sdb) Has(key []byte) (bool, error) {
-	d.read("has", key)
+	if rf := d.read("has", key); rf != nil {
+		rf.fire("has")
+		return false, errReadInjected
+	}
 	return d.inner.Has(key)
 }
 
 func (d *sdb) Get(key []byte, cb func([]byte) error) error {
-	d.read("get", key)
+	if rf := d.read("get", key); rf != nil {
+		rf.fire("get")
+		return errReadInjected
+	}
 	return d.inner.Get(key, cb)
 }
 
 func (d *sdb) NewIterator(prefix []byte, ub bool) (db.Iterator, error) {
-	d.read("iter", prefix)
-	return d.inner.NewIterator(prefix, ub)
+	return faultyIter(d.read("iter", prefix), "", func() (db.Iterator, error) { return d.inner.NewIterator(prefix, ub) })
+}
+
+// faultyIter opens an iterator under an (optional) armed read fault.
+func faultyIter(rf *readFault, pfx string, open func() (db.Iterator, error)) (db.Iterator, error) {
+	if rf != nil && rf.mode == rfCall {
+		rf.fire(pfx + "iter_open")
+		return nil, errReadInjected
+	}
+	it, err := open()
+	if err != nil || rf == nil {
+		return it, err
+	}
+	return &faultIter{Iterator: it, rf: rf, pfx: pfx, left: rf.nth}, nil
+}
+
+// faultIter is an iterator that suffers one transient read error part-way (see rfValue, rfStop). It is
+// used by one goroutine at a time, like every db.Iterator.
+type faultIter struct {
+	db.Iterator
+	rf     *readFault
+	pfx    string
+	left   int  // calls of the affected kind that still succeed
+	failed bool // rfStop: the error was hit; the iterator is invalid from then on
+	done   bool // rfValue: the one failing call has happened
+}
+
+func (it *faultIter) position(f func() bool) bool {
+	if it.failed {
+		return false
+	}
+	if it.rf.mode == rfStop {
+		if it.left == 0 {
+			it.failed = true
+			it.rf.fire(it.pfx + "iter_stop")
+			return false
+		}
+		it.left--
+	}
+	return f()
+}
+
+func (it *faultIter) First() bool { return it.position(it.Iterator.First) }
+func (it *faultIter) Next() bool  { return it.position(it.Iterator.Next) }
+func (it *faultIter) Prev() bool  { return it.position(it.Iterator.Prev) }
+func (it *faultIter) Seek(k []byte) bool {
+	return it.position(func() bool { return it.Iterator.Seek(k) })
+}
+func (it *faultIter) Valid() bool { return !it.failed && it.Iterator.Valid() }
+
+func (it *faultIter) Key() []byte {
+	if it.failed {
+		return nil
+	}
+	return it.Iterator.Key()
+}
+
+func (it *faultIter) value(f func() ([]byte, error)) ([]byte, error) {
+	if it.failed {
+		return nil, errReadInjected
+	}
+	if it.rf.mode == rfValue && !it.done {
+		if it.left == 0 {
+			it.done = true
+			it.rf.fire(it.pfx + "iter_value")
+			return nil, errReadInjected
+		}
+		it.left--
+	}
+	return f()
+}
+
+func (it *faultIter) Value() ([]byte, error)         { return it.value(it.Iterator.Value) }
+func (it *faultIter) UncopiedValue() ([]byte, error) { return it.value(it.Iterator.UncopiedValue) }
+
+func (it *faultIter) Close() error {
+	err := it.Iterator.Close()
+	if it.failed {
+		return errReadInjected
+	}
+	return err
 }
 
 func (d *sdb) NewSnapshot() db.Snapshot {
@@ -256,7 +387,7 @@ func (d *sdb) NewSnapshot() db.Snapshot {
 func (d *sdb) direct(name string, key, extra []byte, apply func() error) error {
 	h := newDigest()
 	h.add(name, key, extra)
-	if !d.s.gate(opInfo{kind: opCommit, name: name, bucket: first(key), key: fmt.Sprintf("%016x", h.sum), nops: 1}) {
+	if !d.s.gate(opInfo{kind: opCommit, name: name, bucket: first(key), key: fmt.Sprintf("%016x", h.sum), nops: 1}).ok {
 		return errInjected
 	}
 	return apply()
@@ -365,23 +496,28 @@ func (b *sbatch) Size() int    { return b.b.Size() }
 func (b *sbatch) Close() error { return b.b.Close() }
 
 func (b *sbatch) Write() error {
-	if !b.d.s.gate(opInfo{kind: opCommit, name: "write", bucket: first(b.first), key: fmt.Sprintf("%016x", b.h.sum), nops: b.n}) {
+	if !b.d.s.gate(opInfo{kind: opCommit, name: "write", bucket: first(b.first), key: fmt.Sprintf("%016x", b.h.sum), nops: b.n}).ok {
 		return errInjected
 	}
 	return b.b.Write()
 }
 
 func (b *sbatch) Has(k []byte) (bool, error) {
-	b.d.read("bhas", k)
+	if rf := b.d.read("bhas", k); rf != nil {
+		rf.fire("bhas")
+		return false, errReadInjected
+	}
 	return b.b.Has(k)
 }
 
 func (b *sbatch) Get(k []byte, cb func([]byte) error) error {
-	b.d.read("bget", k)
+	if rf := b.d.read("bget", k); rf != nil {
+		rf.fire("bget")
+		return errReadInjected
+	}
 	return b.b.Get(k, cb)
 }
 
 func (b *sbatch) NewIterator(p []byte, ub bool) (db.Iterator, error) {
-	b.d.read("biter", p)
-	return b.b.NewIterator(p, ub)
+	return faultyIter(b.d.read("biter", p), "b", func() (db.Iterator, error) { return b.b.NewIterator(p, ub) })
 }
